@@ -13,9 +13,28 @@ def replay(path):
         import importlib
         mod = importlib.import_module(r["module"])
         return mod.replay(r)
+    job = r["job"]
+    if isinstance(job, dict) and job.get("conc_scenario"):
+        # a concurrency scenario recorded by a log-store check (C08 / C13 concurrent stages)
+        import checks_conc
+        sc = job["conc_scenario"]
+        build(["concdrive"])
+        wd = scratch("verif-replay-")
+        trace, races, _ = checks_conc.run_conc([sc], wd, "replay")
+        if sc.get("mode") == "stablesched":
+            vs = [{"clause": v["clause"], "event": json.loads(open(trace).read().splitlines()[v["line"] - 1])}
+                  for v in checks_conc.stable_judge(trace, wd, {})]
+        else:
+            vs = checks_conc.locate(trace, checks_conc.judge(trace, wd, {}))
+        for v in vs:
+            print("rejected:", v["clause"], json.dumps(v["event"])[:300])
+        if vs:
+            print("VIOLATION property=%s replay=%s" % (pid, path))
+            return 1
+        print("OK property=%s (scenario no longer violates it; concurrency scenarios may need several attempts)" % pid)
+        return 0
     build(["walreplay"])
     eng = we.Engine(pid, "quick", seed_of())
-    job = r["job"]
     job["soft"] = False
     cl = eng.final([job], "replay")
     mine = [v for v in cl if pid in v["props"]]
